@@ -669,8 +669,29 @@ static void crash_handler(int sig) {
     if (c[0]) { const char* p = "\n[vrt-crash-context] "; if (write(2, p, strlen(p)) < 0) {} if (write(2, c, strlen(c)) < 0) {} if (write(2, "\n", 1) < 0) {} }
     signal(sig, SIG_DFL); raise(sig);
 }
+// The driver passes the directories of the libtbb / libtbbmalloc this executable was linked against (VRT_EXPECT_LIBDIRS). If such a
+// directory has been removed meanwhile the dynamic loader silently falls back to the system's library in /usr/lib - a different oneTBB.
+// A harness that finds itself running with a libtbb*.so from anywhere else refuses to produce a verdict (exit 2 = harness failure).
+static void check_loaded_libraries() {
+    const char* exp = getenv("VRT_EXPECT_LIBDIRS"); if (!exp || !*exp) return;
+    std::vector<std::string> dirs; { std::string e = exp; size_t p0 = 0; while (p0 <= e.size()) { size_t c = e.find(':', p0); if (c == std::string::npos) c = e.size(); if (c > p0) dirs.push_back(e.substr(p0, c - p0)); p0 = c + 1; } }
+    FILE* f = fopen("/proc/self/maps", "r"); if (!f) return;
+    char line[1024]; std::string bad;
+    while (fgets(line, sizeof line, f)) {
+        const char* sl = strchr(line, '/'); if (!sl) continue;
+        std::string path = sl; while (!path.empty() && (path.back() == '\n' || path.back() == ' ')) path.pop_back();
+        size_t b = path.rfind('/'); std::string base = path.substr(b + 1);
+        if (base.compare(0, 9, "libtbb.so") != 0 && base.compare(0, 15, "libtbbmalloc.so") != 0) continue;
+        bool ok = false; for (auto& d : dirs) if (path.compare(0, d.size() + 1, d + "/") == 0) ok = true;
+        if (!ok && bad.find(path) == std::string::npos) bad += (bad.empty() ? "" : ", ") + path;
+    }
+    fclose(f);
+    if (!bad.empty()) { fprintf(stderr, "[vrt] wrong library loaded: %s (expected one from %s): no verdict from this process\n", bad.c_str(), exp); _exit(2); }
+}
+
 Args standard_init(int argc, char** argv, const char* harness_name) {
     Args a; a.parse(argc, argv);
+    check_loaded_libraries();
     signal(SIGABRT, crash_handler);
 #if !VRT_ASAN && !VRT_TSAN
     signal(SIGSEGV, crash_handler); signal(SIGBUS, crash_handler);
